@@ -114,7 +114,7 @@ class World:
             import zlib
 
             by_matrix = zlib.crc32(repr((ev["a"], ev["vals"], [v["cfg"] for v in ev["als"]], len(self.als))).encode()) % 2 == 0
-            if type(al).__name__ == "AlignmentRotation" and by_matrix:
+            if type(al).__name__ == "AlignmentRotation" and (by_matrix or al.n_dims == 2):
                 # the other public way to overwrite the parameters of a rotation by hand: an improper matrix (a reflection) - whatever
                 # is put there, the next set_target fits afresh with the options the alignment was built with
                 al.set_rotation_matrix(np.array([[1.0, 0.0], [0.0, -1.0]]), skip_checks=True)
